@@ -994,3 +994,23 @@ Example ex_rejects :
   accepts (init 2 NamePrio) [Add 0 Normal [97] Outside; Add 1 Normal [98] Outside; Take 0 0] = None /\
   accepts (init 2 Fifo) [Add 0 Normal [] Outside; Add 0 Normal [] Outside] = None.
 Proof. vm_compute. repeat split; reflexivity. Qed.
+
+(* ------------------------------------------------------------------ the serial queue *)
+(* The serial queue loses jobs: a job added by the running job after the destructor has queued its sentinel is
+   never executed although the queue is destroyed "normally" (worker joined).  Witness replayed on the implementation
+   by harness/py/props/c16.py (corpus scenario serial-add-after-shutdown). *)
+Theorem serial_drop_refuted :
+  exists ls s, saccepts sinit ls = Some s /\ ss_exited s = true /\ ss_running s = None /\
+               In 1 (ss_added s) /\ ~ In 1 (ss_finished s) /\ slost s = [1].
+Proof.
+  exists [SAdd 0 false; STake 0; SShutdown; SAdd 1 true; SFinish; SExit]. eexists.
+  split; [vm_compute; reflexivity|]. cbn. repeat split; try reflexivity.
+  - left. reflexivity.
+  - intros [H|[]]. discriminate.
+Qed.
+
+(* ... while everything queued before the destructor started does run: same prefix, destruction after the add *)
+Example serial_no_drop_instance :
+  exists s, saccepts sinit [SAdd 0 false; STake 0; SAdd 1 true; SShutdown; SFinish; STake 1; SFinish; SExit] = Some s /\
+            ss_exited s = true /\ ss_finished s = [1; 0] /\ slost s = [].
+Proof. eexists. split; [vm_compute; reflexivity|]. repeat split; reflexivity. Qed.
